@@ -16,12 +16,12 @@ CHECKS = {
  "C10": ("SEQ+CONC+VOLUME+FUZZ", "model-based stateful PBT with synchronised sweeps and shard rotations", "safety after every completed sweep and bounded liveness after a full shard rotation on generated TTL histories", "sweep-counter hooks trusted", "5/C10"),
  "C11": ("SEQ+CONC+FUZZ", "generated unawaited bursts + injection; trace checker (exactly once, non-overlapping, submission order) and acknowledgement-order probe", "trace of executed commands compared with the call history of generated bursts on queues down to 1", "Executed/Sent trace events trusted; commands identified by a per-acknowledgement id (hook)", "5/C11"),
  "C12": ("ACK+SEQ+CONC", "harness-owned schedules: exhaustive enumeration of bounded shapes + generated choice vectors (proptest) + end-to-end stress", "all interleavings of done() with polls for shapes <= 2 tasks x 2 polls / 1 task x 3 polls enumerated; larger shapes sampled; 320k real puts busy-polled/parked", "schedule points + serialising turnstile trusted; x86 memory ordering not explored", "5/C12"),
- "C13": ("SEQ+ACK+CONC", "generated concurrent programs with shutdown calls + injection between the steps of shutdown(); history checker", "statuses and return values of every call around generated shutdown points; every acknowledgement completes; shutdown returns", "no-progress watchdog (10 s) is the only timing oracle", "5/C13"),
+ "C13": ("SEQ+ACK+CONC", "generated concurrent programs with shutdown calls + injection between the steps of shutdown(); history checker", "statuses and return values of every call around generated shutdown points; every acknowledgement completes; shutdown returns", "no-progress watchdog (15 s quick, 60 s thorough) is the only timing oracle", "5/C13"),
  "C14": ("SKETCH+FUZZ", "differential testing against an unpacked reference; exhaustive byte table + generated streams (proptest)", "256-value byte table enumerated; generated streams over all counter sizes compared counter by counter after every op; ageing checked at the exact threshold", "thin wrappers trusted to delegate; bloom filter answers observed, everything else predicted", "5/C14"),
  "C15": ("SEQ+CONC+VOLUME", "generated read workloads with the consumer free/stopped (gate hook); counter identities at quiescence", "hits == buffered + delivered + dropped on generated multi-threaded read workloads with pool/buffer sizes down to 1", "gate and buffered-count hooks trusted", "5/C15"),
  "C16": ("SEQ+CONC+VOLUME+FUZZ", "model-based stateful PBT: model counters vs stats_summary at every quiescent point", "all counters and hit ratio compared with the model after every op", "reference model trusted", "5/C16"),
  "C17": ("SEQ+CONC+FUZZ", "boundary-value stateful PBT with catch_unwind, global panic hook and liveness probe", "generated histories/configurations at arithmetic boundaries; no caller or background panic; worker/consumer/sweeper alive afterwards", "panic attribution through thread-local hook instance", "5/C17"),
- "C18": ("CONC", "generated concurrent programs with maximal lock sharing + delay injection after lock sites; no-progress watchdog with CPU check", "no generated program blocked: every call returned, every acknowledgement completed, background threads alive afterwards", "sampling of schedules; blocked = no progress for 10 s (quick) with idle threads", "5/C18"),
+ "C18": ("CONC", "generated concurrent programs with maximal lock sharing + delay injection after lock sites; no-progress watchdog with CPU check", "no generated program blocked: every call returned, every acknowledgement completed, background threads alive afterwards", "sampling of schedules; blocked = no progress for 15 s (quick) / 60 s (thorough) with idle threads", "5/C18"),
 }
 PENDING = {
 }
